@@ -6,8 +6,8 @@ import json, subprocess
 
 READY = {
     "C01": True, "C02": True, "C03": True, "C04": True, "C05": True, "C06": True, "C07": True,
-    "C08": True, "C09": True, "C10": True, "C11": True, "C12": False, "C13": False, "C14": False,
-    "C15": True, "C16": True, "C17": True, "C18": True, "C19": True, "C20": False,
+    "C08": True, "C09": True, "C10": True, "C11": True, "C12": True, "C13": True, "C14": True,
+    "C15": True, "C16": True, "C17": True, "C18": True, "C19": True, "C20": True,
 }
 NOT_READY_REASON = "check under construction in this session (claimed once its monitor is silent on the unchanged tree)"
 
